@@ -145,6 +145,18 @@ CHECKS = {
             "Trusted: canon() equality and Python's json module as the judge of standard JSON. Two recorded findings "
             "(DataClass instances have no encoder; infinities are emitted as bare tokens).",
             "DESIGN.md §3 C14"),
+    "C15": ("bounded-exhaustive enumeration of JSON Schemas from the supported-keyword grammar x JSON instances, each value "
+            "returned by the built type validated against the source schema by an independent validator (jsonschema)",
+            "All schemas generated from type (absent, null, boolean, integer, number, string) x format x numeric / length / "
+            "pattern / enum / const keywords, arrays (items, prefixItems, items:false, min/maxItems, uniqueItems), objects "
+            "(properties named a, a-b, class, 1x, items, keys, update, _p; required subsets; additionalProperties absent / "
+            "true / false / schema; dependentRequired; min/maxProperties) and anyOf / oneOf / allOf pairs, nested to depth 2 "
+            "(quick) / 3 (thorough) x 75 JSON instances: building the type never raises; under Options(no_explicit_cast, "
+            "no_data_loss) each call raises TypeError/ValueError (ParseError) or returns a value whose JSON encoding "
+            "validates against the source schema (Draft 2020-12).",
+            "Trusted: the jsonschema package (installed offline by setup_cmd into /verif/.deps) as the judge; format is an "
+            "annotation. Three recorded findings (allOf integer/boolean, reserved extra key names, prefixItems presence).",
+            "DESIGN.md §3 C15"),
     "C16": ("explicit-state exploration (DFS with state dedup) of register/resolve histories on the real "
             "TypeRegistry against a cache-free reference model",
             "All histories of register/resolve operations up to depth 4 (quick) / 5 (thorough) over a menu of "
